@@ -76,23 +76,23 @@ def readOctal (buf : Bytes) (i digits : Nat) : R Nat :=
   | .spin => .spin
 
 /--
-`while (digits > 0)` of `read_binary` after the first byte.  `fixed = false`: the guard of 1.2.0
-(`ov != 0 && ov != 0xFF`); `fixed = true`: the guard after fixes/C04-read-binary-overflow.patch
-(`ov != (negative ? 0xFF : 0)`).  The index behaviour is the same; the check picks the variant the
-working tree has.
+`while (digits > 0)` of `read_binary` (number.c) after the first byte: `ov = (result >> 56) & 0xFF;
+if (ov != (negative ? 0xFF : 0x00)) goto fail_ov; result = (result << 8) | x;`.
+(The guard of 1.2.0, `ov != 0 && ov != 0xFF`, let a number wrap silently; it lives on only in
+`Sqfs/Witness/C07.lean`.)
 -/
-def binLoop (fixed neg : Bool) (buf : Bytes) : Nat → Nat → Nat → R Nat
+def binLoop (neg : Bool) (buf : Bytes) : Nat → Nat → Nat → R Nat
   | _, 0, r => .ok r
   | i, d + 1, r =>
     match buf[i]? with
     | none => .oob
     | some x =>
       let ov := r / 72057594037927936 % 256
-      if (if fixed then (if neg then ov ≠ 255 else ov ≠ 0) else (ov ≠ 0 ∧ ov ≠ 255)) then .fail 1
-      else binLoop fixed neg buf (i + 1) d ((r * 256 + x.toNat) % U64)
+      if (if neg then ov ≠ 255 else ov ≠ 0) then .fail 1
+      else binLoop neg buf (i + 1) d ((r * 256 + x.toNat) % U64)
 
 /-- `read_binary` (`digits ≥ 1`) -/
-def readBinary (fixed : Bool) (buf : Bytes) (i digits : Nat) : R Nat :=
+def readBinary (buf : Bytes) (i digits : Nat) : R Nat :=
   match digits with
   | 0 => .ok 0
   | d + 1 =>
@@ -101,19 +101,19 @@ def readBinary (fixed : Bool) (buf : Bytes) (i digits : Nat) : R Nat :=
     | some x0 =>
       if x0.toNat = 255 then
         -- first iteration: result = all ones, ov = 0xFF, result = (result << 8) | 0xFF = all ones
-        match binLoop fixed true buf (i + 1) d (U64 - 1) with
-        | .ok r => if fixed && r < 9223372036854775808 then .fail 1 else .ok r
+        match binLoop true buf (i + 1) d (U64 - 1) with
+        | .ok r => if r < 9223372036854775808 then .fail 1 else .ok r     -- `negative && !(result & 0x8000…)`
         | e => e
       else
         let x := x0.toNat % 128
         if d > 7 ∧ x ≠ 0 then .fail 1
-        else binLoop fixed false buf (i + 1) d x
+        else binLoop false buf (i + 1) d x
 
 /-- `read_number(str, digits, &out)` with `str = buf + i`; reads `*str` first, whatever `digits` is -/
-def readNumber (fixed : Bool) (buf : Bytes) (i digits : Nat) : R Nat :=
+def readNumber (buf : Bytes) (i digits : Nat) : R Nat :=
   match buf[i]? with
   | none => .oob
-  | some c => if c.toNat ≥ 128 then readBinary fixed buf i digits else readOctal buf i digits
+  | some c => if c.toNat ≥ 128 then readBinary buf i digits else readOctal buf i digits
 
 /-! ## `parse_uint` / `parse_int` (`lib/util/src/parse_int.c`)
 
